@@ -369,6 +369,11 @@ def gen_c12(seed, tier='quick', opts=None):
             ll.append([round(step * k * g.uni(0.95, 1.05), 3), g.pick(EXIT_STATUS),
                        round(g.pick([0, 0, 0.001, step * 0.3, step * 1.2]), 3)])
         plan['life'][sp['uid']] = ll
+    # job control: an operator stops and continues some executors (SIGSTOP/SIGCONT); a stopped executor
+    # still runs as far as the limit is concerned
+    jc = g.pick([0, 0, 0.1, 0.4])
+    if jc:
+        plan['cfg']['jobctl'] = jc
     return plan
 
 
@@ -657,6 +662,28 @@ def gen_c06(seed, tier='quick', opts=None):
                     ops.append({'t': round(t, 3), 'op': 'add', 'peer': u['uid'], 'tasks': [tk['id']],
                                 'linger': 0.1, 'via': g.pick(['echsq', 'raw'])})
                 t += g.uni(0.05, 0.6)
+    # a supervised task (MAX-SIMUL) cancelled, or replaced, while one of its executions is still running:
+    # the checkpoint that follows is written while the daemon still holds the old incarnation for its child
+    # (own generator, so that older seeds keep the rest of their plans)
+    g3 = G(seed ^ 0x72756e63)
+    busy_life = {}
+    if g3.chance(0.3):
+        for _ in range(g3.pick([1, 1, 2])):
+            peer = g3.pick(users)['uid']
+            uid = 'j%d@sim' % len(tasks)
+            sp = {'uid': uid, 'cmd': 'job %s' % uid, 'start': int(t) + g3.pick([1, 2]),
+                  'rules': [{'freq': 'SECONDLY', 'interval': g3.pick([1, 5, 60, 3600]), 'count': g3.pick([2, 3, 50])}],
+                  'maxsimul': g3.pick([1, 2, 5])}
+            tk = finish_task(len(tasks), sp, lo=t0 - 10)
+            tasks.append(tk)
+            owners[uid] = peer
+            ops.append({'t': round(t, 3), 'op': 'add', 'peer': peer, 'tasks': [tk['id']],
+                        'linger': 0.1, 'via': g3.pick(['echsq', 'raw'])})
+            busy_life[uid] = [[g3.pick([1e7, 1e7, 500.0, 4.0, 1.5]), 0, 0.0]]
+            t += g3.uni(2.2, 3.5)
+            if g3.chance(0.75):
+                ops.append({'t': round(t, 3), 'op': 'cancel', 'peer': peer, 'uids': [uid], 'linger': 0.1})
+            t += g3.uni(0.05, 0.5)
     t += 0.7
     ops.append({'t': round(t, 3), 'op': 'mark', 'id': 1})
     trig = g.wpick([('timer', 4), ('get', 2), ('shutdown', 3)])
@@ -706,7 +733,7 @@ def gen_c06(seed, tier='quick', opts=None):
     else:
         ops1.append({'t': round(e1 + g.pick([30, 120, 400]), 3), 'op': 'crash'})
     plan = {'v': 1, 'engine': 'simd', 'property': 'C06', 'seed': seed, 'cfg': cfg, 'users': users,
-            'tasks': tasks, 'life': {'*': [[0.3, 0, 0.0]]}, 'epochs': epochs}
+            'tasks': tasks, 'life': dict({'*': [[0.3, 0, 0.0]]}, **busy_life), 'epochs': epochs}
     return plan
 
 
